@@ -34,6 +34,7 @@ ASSUMPTIONS = [
     'alias rewrites touch only non-internable objects; == deliberately ignores sharing of internables',
     'two breaking rewrites in a row give no expectation for x == z (they may cancel)',
 ]
+RULE += (' ' + 'Round 6: a parameter whose default is a sentinel object compared by identity: unset, explicit, and a copy (deepcopy / pickle / copy / copy_with / deepcopy_with / identity traversal) of the unset one are pairwise equal.')
 BUDGET = {'quick': 16 * 500, 'thorough': 16 * 12000}
 FLOORS = {'alias_only_pair': 0.03, 'mixed_key_dict': 0.012, 'explicit_default': 0.05, 'r1_intern_redirect': 0.013}
 
@@ -63,8 +64,17 @@ def _free_param(root):
   return names[-1]
 
 
+_SENTINEL_OPS = ['deepcopy', 'pickle', 'copy', 'copy_with', 'deepcopy_with', 'unflatten']
+
+
 @st.composite
 def strategy_(draw, tier):
+  if draw(st.sampled_from(range(25))) == 0:
+    # a parameter whose default is a sentinel compared by identity: unset, explicitly set to
+    # the default, and an (identity-preserving-for-defaults) copy of the unset one
+    return {'sentinel_default': True, 'op': draw(st.sampled_from(_SENTINEL_OPS)),
+            'wrap': draw(st.sampled_from(['none', 'list', 'child', 'dict'])),
+            'x': draw(leaves.leaf('plain')), 'bt': draw(st.sampled_from(['Config', 'Partial']))}
   if draw(st.floats(0, 1)) < 0.08:
     # aliases inside a nested Buildable whose targets are first visited through earlier
     # arguments of the root
@@ -458,8 +468,61 @@ def _canon_build(root):
   return C.Canon(callable_probe=True).term(fdl.build(root))
 
 
+def check_sentinel_default(case, out):
+  out.cls('sentinel_default')
+  out.nontrivial = True
+  bt = getattr(fdl, case['bt'])
+
+  def mk(explicit):
+    inner = bt(things.pooled, x=leaves.dec(case['x']))
+    if explicit:
+      inner.pool = things.DEFAULT_POOL
+    w = case['wrap']
+    if w == 'none':
+      return inner
+    if w == 'list':
+      return fdl.Config(things.h1, a=[inner, 1])
+    if w == 'dict':
+      return fdl.Config(things.h1, a={'k': inner})
+    return fdl.Config(things.f2, x='outer', child=inner)
+
+  op = case['op']
+  a, b = mk(False), mk(True)
+  src = mk(False)
+  if op == 'deepcopy':
+    c = copy.deepcopy(src)
+  elif op == 'pickle':
+    c = pickle.loads(pickle.dumps(src))
+  elif op == 'copy':
+    c = copy.copy(src)
+  elif op == 'copy_with':
+    c = fdl.copy_with(src)
+  elif op == 'deepcopy_with':
+    c = fdl.deepcopy_with(src)
+  else:
+    from fiddle import daglish
+    c = daglish.MemoizedTraversal.run(lambda v, state: state.map_children(v), src)
+  feat = 'sentinel-default:' + op
+  res = {}
+  for name, (p, q) in {'ab': (a, b), 'ba': (b, a), 'ac': (a, c), 'ca': (c, a), 'bc': (b, c), 'cb': (c, b)}.items():
+    e = _eq(p, q)
+    if e[0] == 'raises':
+      out.add('eq-raises', exc_kind(e[1]), fiddle_frame(e[1]), feat, f'{name}: {e[1]!r}')
+      return out
+    res[name] = bool(e[1])
+  if not res['ab'] or not res['ba']:
+    out.add('preserving-rewrite-unequal', 'mismatch', '', 'sentinel-default:explicit_default', f'a={a!r}\nb={b!r}')
+  if not res['ac'] or not res['ca']:
+    out.add('preserving-rewrite-unequal', 'mismatch', '', feat, f'a={a!r}\nc={c!r}')
+  if res['ab'] and res['ac'] and not (res['bc'] and res['cb']):
+    out.add('not-transitive', 'mismatch', '', feat, f'explicit == unset == {op}(unset), but explicit != {op}(unset)')
+  return out
+
+
 def check(case):
   out = Outcome()
+  if case.get('sentinel_default'):
+    return check_sentinel_default(case, out)
   x_rec = case['recipe']
   y_rec, post1, k1 = rewrite(x_rec, case['r1'][0], case['r1'][1])
   z_rec, post2, k2 = rewrite(y_rec, case['r2'][0], case['r2'][1])
